@@ -37,7 +37,7 @@ var c16SourceFaults = map[string][]string{
 }
 
 // faults of the rules side / arguments (no source edit)
-var c16TreeFaults = []string{"rule-not-in-file", "offset-beyond-chain", "no-rules-file", "two-rules-files", "operator-not-rx", "missing-assembly-file", "bad-argument", "invalid-version", "missing-version"}
+var c16TreeFaults = []string{"offset-over-255", "stored-name-of-other-file", "rule-not-in-file", "offset-beyond-chain", "no-rules-file", "two-rules-files", "operator-not-rx", "missing-assembly-file", "bad-argument", "invalid-version", "missing-version"}
 
 func c16Inject(src, fault, pos string, r int) (string, map[string]string) {
 	lines := c16SourceFaults[fault]
@@ -115,6 +115,22 @@ func c16Check(env *core.Env, cc core.Case) core.Verdict {
 			}
 			arg = ruleKey(ft.ID, n)
 			tree["regex-assembly/"+arg+".ra"] = "beyond\n"
+		case "offset-over-255":
+			// the assembly file exists; an offset above 255 must be rejected, not wrapped
+			k := []int{256, 257, 300, 511, 512, 65536}[idx%6]
+			arg = fmt.Sprintf("%s-chain%d", ft.ID, k)
+			tree["regex-assembly/"+arg+".ra"] = "wrapped\n"
+		case "stored-name-of-other-file":
+			// the faulty unit appends a stored name that only the first unit in walk order stores
+			if idx == 0 {
+				idx = len(targets) - 1
+				ft = targets[idx]
+				arg = ft.Key
+			}
+			first := targets[0]
+			tree["regex-assembly/"+first.Key+".ra"] = "##!> assemble\n  leaka\n  leakb\n  ##!=< leakstore\n##!<\nkeep\n##!=> leakstore\n"
+			tree["regex-assembly/"+ft.Key+".ra"] = "needs\n##!=> leakstore\n"
+			isSource = true
 		case "no-rules-file":
 			delete(tree, ft.File.path())
 		case "two-rules-files":
